@@ -6,17 +6,27 @@ package device
 
 //vc:func ApproveOrCompare
 //vc:  init isCompareRun = isCompare
+//vc:  init nameChecked = false
+//vc:  init markerMissing = false
+//vc:  init haActive = false
 
 // Both front-end paths are verified once per device type (the interface
 // RealDevice is bound to each implementation in turn).
 //vc:func (*state).approve
 //vc:  specialize RealDevice
 //vc:  requires[C11] !isCompareRun
+//vc:  requires[C06] !nameChecked && !markerMissing && !haActive
 
 //vc:func (*state).compare
 //vc:  specialize RealDevice
 //vc:  requires[C11] true
+//vc:  requires[C06] !nameChecked && !markerMissing && !haActive
 
+// C06: changes are applied only to a device that passed every interlock its
+// type has (NSX has no hostname, only PAN-OS has HA state).
 //vc:func (*state).applyCommands
 //vc:  specialize RealDevice
 //vc:  requires[C11] !isCompareRun
+//vc:  requires[C06] @hostnameChecked dyntype(s.RealDevice) != typeid("*nsx.State") ==> nameChecked
+//vc:  requires[C06] @markerPresent !markerMissing
+//vc:  requires[C06] @haMemberActive dyntype(s.RealDevice) == typeid("*panos.State") ==> haActive
